@@ -71,12 +71,21 @@ def streams(ctx):
         ctx.run_cases(ENC, f"encoded-{fam}", items, exhaustive=False, sample_every=349)
     items = B.encode_all([B.gen_device(rng) for _ in range(ctx.n(40, 400))])
     ctx.run_cases(VIA, "through-a-running-bridge-on-loopback", items, exhaustive=False, sample_every=20)
+    # a broadcast says the same on a host in any zone (remaining time and auto shutdown are durations, not clock times)
+    import apiharness as H
+    try:
+        for zone in ("Asia/Kathmandu", "America/St_Johns"):
+            H.set_tz(zone)
+            items = B.encode_all([B.gen_device(rng, "t1") for _ in range(ctx.n(150, 3000))])
+            ctx.run_cases(ENC, f"encoded-t1-on-a-host-in-{zone}", items, exhaustive=False, sample_every=149)
+    finally:
+        H.set_tz("UTC")
     # the same device id heard again with another name / address / key / state: every broadcast is decoded on its own
     again = []
     for _ in range(ctx.n(60, 1500)):
         fam = rng.choice(["t1", "shutter", "thermo"])
         did = rng.randbytes(3).hex()
-        again += [B.gen_device(rng, fam, dev_id=did) for _ in range(rng.randrange(2, 5))]
+        again += [B.gen_device(rng, fam if rng.random() < 0.6 else rng.choice(["t1", "shutter", "thermo"]), dev_id=did) for _ in range(rng.randrange(2, 5))]
     again = B.encode_all(again)
     ctx.run_cases(ENC, "same-device-id-heard-again-with-other-fields", again, exhaustive=False, sample_every=len(again) // 2)
     ctx.run_cases(VIA, "same-device-id-again-through-a-running-bridge", again[:ctx.n(40, 300)], exhaustive=False, sample_every=20)
